@@ -233,6 +233,20 @@ func genC17(t *rapid.T) c17Case {
 		sc.Invs = []Invocation{{Kind: "call", Origin: EOAAddr, Caller: EOAAddr, To: ContractAddrs[k], Gas: 5_000_000, JP: k == 1}}
 		c.Scenarios = append(c.Scenarios, sc)
 	}
+	// the undefined-opcode pair: frames that end on byte values no fork defines, join
+	// points on (the error text, which names the opcode, goes into the post join point
+	// message): whatever naming an opcode touches is shared by all EVMs
+	undefined := []byte{0x0c, 0x0d, 0x0e, 0x0f, 0x1e, 0x1f, 0x21, 0x22, 0x23, 0x24, 0x25, 0x26, 0x27, 0x28, 0x29, 0x2a, 0x2b, 0x2c, 0x2d, 0x2e, 0x2f,
+		0x49, 0x4a, 0x4b, 0x4c, 0x4d, 0x4e, 0x4f, 0xa5, 0xa6, 0xa7, 0xa8, 0xa9, 0xaa, 0xab, 0xac, 0xad, 0xae, 0xaf, 0xb0, 0xb1, 0xb2, 0xb5, 0xb6, 0xb7, 0xb8, 0xb9, 0xba, 0xbb,
+		0xc0, 0xc1, 0xc2, 0xc3, 0xc4, 0xc5, 0xc6, 0xc7, 0xc8, 0xc9, 0xca, 0xcb, 0xcc, 0xcd, 0xce, 0xcf, 0xd0, 0xd1, 0xd2, 0xd3, 0xd4, 0xd5, 0xd6, 0xd7, 0xd8, 0xd9, 0xda, 0xdb, 0xdc, 0xdd, 0xde, 0xdf,
+		0xe8, 0xe9, 0xea, 0xeb, 0xec, 0xed, 0xee, 0xef, 0xf6, 0xf7, 0xf8, 0xf9, 0xfb, 0xfc}
+	for k := 0; k < 2; k++ {
+		op := undefined[uniform(t, 0, len(undefined)-1, "undefop")]
+		sc := &Scenario{Fork: "Shanghai", Note: "undefined-opcode"}
+		sc.Accounts = []Account{{Addr: ContractAddrs[k], Nonce: 1, Code: []byte{PUSH1, 1, PUSH1, 1, SSTORE, op}}, {Addr: EOAAddr, Balance: hexU64(1 << 40), Nonce: 1}}
+		sc.Invs = []Invocation{{Kind: "call", Origin: EOAAddr, Caller: EOAAddr, To: ContractAddrs[k], Gas: 100000, JP: true}}
+		c.Scenarios = append(c.Scenarios, sc)
+	}
 	for i := 0; i < n; i++ {
 		var sc *Scenario
 		switch uniform(t, 0, 4, "fam") {
